@@ -54,6 +54,12 @@ pub trait Setup: 'static + Send + Sync {
         packing: &TablePacking,
         recompose: bool,
     ) -> Result<Vec<crate::bus::BusEvent>, String>;
+    /// Main matrices of the primitive tables for `traces` (canonical u64s).
+    fn mains(
+        circuit: &Circuit<Self::E>,
+        traces: &Traces<Self::E>,
+        packing: &TablePacking,
+    ) -> Result<Vec<Vec<u64>>, String>;
     fn prove(
         prover: &BatchStarkProver<Self::SC>,
         traces: &Traces<Self::E>,
@@ -161,6 +167,13 @@ macro_rules! impl_setup {
                     (vec![], vec![])
                 };
                 crate::bus::bus_events::<$sc, $e, $d>(circuit, traces, packing, &pre, &airb)
+            }
+            fn mains(
+                circuit: &Circuit<$e>,
+                traces: &Traces<$e>,
+                packing: &TablePacking,
+            ) -> Result<Vec<Vec<u64>>, String> {
+                crate::bus::main_matrices::<$sc, $e, $d>(circuit, traces, packing)
             }
             fn prove(
                 prover: &BatchStarkProver<$sc>,
